@@ -113,6 +113,21 @@ func genHistModes(t *rapid.T, modes []string, deep bool) CaseHist {
 		c.Input = gkit.GenInput(t, c.Spec.In)
 		addInterrupts(t, c.Spec, rapid.SampledFrom([]int{10, 25, 25, 50}).Draw(t, "intWeight"))
 	}
+	// some nested graphs of graphs / workflows are run from inside a lambda node instead of being added as graph nodes
+	var viaLambda func(sp *gkit.Spec)
+	viaLambda = func(sp *gkit.Spec) {
+		for i := range sp.Nodes {
+			n := &sp.Nodes[i]
+			if n.Kind != "graph" || n.Sub == nil {
+				continue
+			}
+			if sp.Mode != "chain" && rapid.IntRange(0, 3).Draw(t, "viaLambda") == 0 {
+				n.ViaLambda = true
+			}
+			viaLambda(n.Sub)
+		}
+	}
+	viaLambda(c.Spec)
 	n := rapid.IntRange(1, 4).Draw(t, "nPar")
 	for i := 0; i < n; i++ {
 		c.Paradigms = append(c.Paradigms, []string{"invoke", "invoke", "stream"}[rapid.IntRange(0, 2).Draw(t, "par")])
